@@ -132,6 +132,7 @@ type RawCfg struct {
 	RcvBuf        int
 	SndBuf        int    // send buffer of the stack endpoint (0 = default)
 	WriteGapMs    int    // the application lets this many virtual ms pass between two writes (0 = writes back to back)
+	SilentAfter   int    // with Silent: the peer answers this many ACKs normally (the stack gets RTT samples), then goes silent
 	WndFloor      bool   // with window scaling the peer truncates its window field (edge retreats by < 2^shift)
 	PeerFixedEdge bool   // the peer's application never reads: its window shrinks as data arrives (fixed right edge at ISS+1+PeerWnd)
 	RTTms         int    // peer answers this many virtual ms after receiving (0 = immediately)
@@ -201,6 +202,8 @@ func ParseRawCfg(s string) RawCfg {
 			c.PeerFixedEdge = atoi() != 0
 		case "wfloor":
 			c.WndFloor = atoi() != 0
+		case "silentafter":
+			c.SilentAfter = atoi()
 		case "rtt":
 			c.RTTms = atoi()
 		case "silent":
@@ -308,6 +311,8 @@ type rawRun struct {
 	states                 []uint64
 	pending                []pendingAck // delayed peer answers (RTT menu)
 	silentLeft             int
+	wentSilent             bool
+	noClamp, tookBack      bool // the next ACK may move the peer's right edge left; one such ACK was sent
 	dupForUna              map[uint32]int // duplicate ACKs delivered per sndUna value
 	lastRTOat              time.Duration
 	eEdge                  uint32 // highest right edge over all emitted segments
@@ -406,7 +411,7 @@ func (x *rawRun) sendAck(ack uint32, wnd int, sack []ref.SACKBlock) {
 	}
 	// an RFC-conforming peer never moves its right edge left
 	edge := ack + uint32(wnd)<<x.peerShift()
-	if x.haveAdv && ref.SeqLT(edge, x.maxEdge) {
+	if x.haveAdv && ref.SeqLT(edge, x.maxEdge) && !x.noClamp {
 		need := (x.maxEdge - ack + (1 << x.peerShift()) - 1) >> x.peerShift()
 		if x.cfg.WndFloor {
 			// a peer that truncates like most stacks do: field = free >> shift, so its edge
@@ -494,6 +499,9 @@ func (x *rawRun) sendAck(ack uint32, wnd int, sack []ref.SACKBlock) {
 
 func newRawRun(cfg RawCfg, prefix []int) *rawRun {
 	x := &rawRun{cfg: cfg, ch: engine.NewChooser(prefix), ooo: map[uint32][]byte{}, wireByte: map[uint32]byte{}, lostOnce: map[uint32]bool{}, dupForUna: map[uint32]int{}, sWS: -1, pTS: 5000, silentLeft: cfg.Silent}
+	if cfg.SilentAfter > 0 {
+		x.silentLeft = 0
+	}
 	x.r = NewRaw(cfg.V6, cfg.MTU)
 	// 4-byte random reads in order: endpoint ts offset, ISS (active) ...
 	ScriptRand(0x01010101, cfg.StackISS, 0x02020202, cfg.StackISS)
@@ -709,6 +717,10 @@ func (x *rawRun) onEmit(d *Decoded) {
 		end := seq + uint32(n)
 		if x.haveAdv && ref.SeqLT(x.maxEdge, end) {
 			x.fail("C04", "beyond-window", "beyond-peer-window", "segment seq+%d len %d ends %d bytes beyond the right edge the peer has offered (ack+%d, window edge +%d)", seq-x.sIss, n, end-x.maxEdge, x.advAck-x.sIss, x.maxEdge-x.sIss)
+		} else if x.tookBack && x.haveAdv && ref.SeqLT(x.advEdge, end) && (!x.haveMaxSent || ref.SeqLT(x.maxSentEnd, end)) {
+			// the peer has taken window back (its edge moved left): what was sent before stays
+			// legitimate and may be retransmitted, but nothing new may go beyond the current edge
+			x.fail("C04", "beyond-window", "beyond-shrunk-window", "segment seq+%d len %d carries new data ending %d bytes beyond the window the peer offers now (ack+%d, window edge +%d; it had offered up to +%d earlier and took that back)", seq-x.sIss, n, end-x.advEdge, x.advAck-x.sIss, x.advEdge-x.sIss, x.maxEdge-x.sIss)
 		}
 		if lim := x.mssLimit(len(t.RawOpts)); n > lim {
 			x.fail("C04", "oversized-segment", "oversized-segment", "segment payload %d exceeds what the peer's MSS (%d) / MTU %d allow with %d option bytes (%d)", n, x.cfg.PeerMSS, x.cfg.MTU, len(t.RawOpts), lim)
@@ -1012,6 +1024,10 @@ func (x *rawRun) deliverMenu(d *Decoded, f *Frame) []action {
 		m = append(m, action{name: "peer gets " + name, do: process})
 		return m
 	}
+	if x.cfg.SilentAfter > 0 && !x.wentSilent && len(x.ackLog) >= x.cfg.SilentAfter {
+		// the peer has answered for a while (the stack has RTT samples), now it goes silent
+		x.wentSilent, x.silentLeft, x.rtxTimes = true, x.cfg.Silent, nil
+	}
 	if x.silentLeft > 0 {
 		m = append(m, action{name: "peer ignores (silent) " + name, do: func() {
 			if len(x.rtxTimes) == 0 && t.Seq == x.advAck {
@@ -1105,6 +1121,24 @@ func (x *rawRun) deliverMenu(d *Decoded, f *Frame) []action {
 			m = append(m, action{name: fmt.Sprintf("peer gets %s, acks all with window %d", name, w), cost: 1, do: func() {
 				process()
 				later("ack-w", ackNow(x.rcvNxt, w))
+			}})
+		}
+	}
+	if x.dev('n') {
+		// a peer that takes window back: a second ACK with the same acknowledgement number and a
+		// smaller window, so that its right edge moves left (discouraged by RFC 793, but the
+		// sender has to live with it: nothing new beyond the edge now in force)
+		for _, w := range []int{0, 1, x.cfg.PeerMSS / 2} {
+			w := w
+			m = append(m, action{name: fmt.Sprintf("peer gets %s, acks all, then shrinks its window to %d with the same ack", name, w), cost: 1, do: func() {
+				process()
+				ack := x.rcvNxt
+				later("ack", ackNow(ack, wnd))
+				later("ack-shrink", func() {
+					x.noClamp, x.tookBack = true, true
+					x.sendAck(ack, w, nil)
+					x.noClamp = false
+				})
 			}})
 		}
 	}
